@@ -210,8 +210,10 @@ def content(seed, n):
     return random.Random(f"content/{seed}").randbytes(n).translate(_NOZERO)
 
 
-def materialise(root, files, dirs=()):
-    """files: list of [relpath, size, content_seed]; creates them under root."""
+def materialise(root, files, dirs=(), links=()):
+    """files: list of [relpath, size, content_seed]; creates them under root.
+    links: [[newrel, targetrel]] - newrel (listed in files with the target's size and seed, so every reference
+    computation stays valid) becomes a HARD LINK to targetrel: two regular directory entries, one inode."""
     os.makedirs(root, exist_ok=True)
     for d in dirs:
         os.makedirs(os.path.join(root, d), exist_ok=True)
@@ -220,6 +222,11 @@ def materialise(root, files, dirs=()):
         os.makedirs(os.path.dirname(p), exist_ok=True)
         with open(p, "wb") as fd:
             fd.write(content(cseed, size))
+    for newrel, target in links:
+        p, t = os.path.join(root, newrel), os.path.join(root, target)
+        if os.path.isfile(p) and os.path.isfile(t):
+            os.remove(p)
+            os.link(t, p)
 
 
 def materialise_single(path, size, cseed):
